@@ -32,7 +32,7 @@ KEY_RECURSION = "vpsc-recursion-cluster"
 
 def plan(tier, seed):
     shards = [{"kind": "strata", "sub": i} for i in range(8 if tier == "quick" else 32)]
-    shards += [{"kind": "general", "sub": i, "n": 40 if tier == "quick" else 600} for i in range(6 if tier == "quick" else 32)]
+    shards += [{"kind": "general", "sub": i, "n": 100 if tier == "quick" else 1000} for i in range(8 if tier == "quick" else 32)]
     shards += [{"kind": "big", "sub": i, "n": 2 if tier == "quick" else 12} for i in range(2 if tier == "quick" else 8)]
     shards.append({"kind": "pinned"})
     return shards
